@@ -271,9 +271,21 @@ func genC07b(tier string, r *rng) {
 					run(fmt.Sprintf("rdr %d utf8 %s %d %s nf r:%d r:4096 st nf ra st", st, hx(two), k, fin, len(s)+1))
 				}
 			}
+			// every split into three fragments for short samples; for long ones a spread of about 120 splits
+			// (the number of splits grows with the square of the length — the thorough tier is sized to minutes)
+			pairs := (len(s) + 1) * (len(s) + 2) / 2
+			stride := 1
+			if pairs > 120 {
+				stride = pairs/120 + 1
+			}
+			pi := 0
 			for a := 0; a <= len(s); a++ {
 				for b := a; b <= len(s); b++ {
+					pi++
 					if tier == "quick" && len(s) > 6 && (a+b+si)%3 != 0 {
+						continue
+					}
+					if stride > 1 && (pi+si)%stride != 0 && !(a == b || b == len(s) || a == 0) {
 						continue
 					}
 					withCtl := (a+b)%2 == 0
